@@ -1,3 +1,353 @@
-/- C13: property theorems (stub — not built yet) -/
+import RSVerif.Lemmas.KeyFilter
+/-
+C13 — Key filtering rewrites multi-key commands without corrupting them.
+
+Property theorems only (helper lemmas live in RSVerif.Lemmas.KeyFilter). What is proved about what:
+* `KeyFilter.table` is the `RedisCommands` table REGENERATED from the current source on every run; the theorems of
+  §1 are re-checked by the kernel against it, §2 lifts them to every argument list and every predicate.
+* `KeyFilter.getMatchKeys / handle / handleWire` are the literal models (Go `int` index arithmetic, bounds-checked
+  slice accesses) of `getMatchKeys`, `HandleFilterKeyWithCommand`, and `ParseArgs`+`HandleFilterKeyWithCommand`.
+* `Spec.CommandKeys` is the hand-written command reference (DESIGN.md Appendix F) and the rewrite rule.
+The table and `getMatchKeys` are those of the tree with fixes/C13-keytable.patch; §4 keeps the kernel-checked
+witnesses of what the eight pinned rows did (deviation D15).
+-/
 namespace RSVerif.Properties.C13
+open RSVerif RSVerif.KeyFilter RSVerif.Spec.CommandKeys RSVerif.Lemmas.KeyFilter
+
+/-! ### 1. The current table against the command reference (decided by the kernel on the regenerated rows) -/
+
+theorem table_all_rowOK : KeyFilter.table.all rowOK = true := by decide +kernel
+
+/-- every row of the source table is a command of the reference, and its `(firstkey, lastkey, keystep)` is the
+    one that describes that command's key layout -/
+theorem table_rows_match_reference :
+    ∀ row ∈ KeyFilter.table, ∃ cls, classOfLower row.name = some cls ∧ rowTriple row = canonicalRow cls := by
+  intro row h
+  have := List.all_eq_true.mp table_all_rowOK row h
+  unfold rowOK at this
+  split at this
+  · rename_i cls hc
+    exact ⟨cls, hc, by simpa using this⟩
+  · cases this
+
+theorem table_names_lower_b : KeyFilter.table.all (fun row => lower row.name == row.name) = true := by decide +kernel
+
+/-- table names are lower-case (what `ParseArgs` delivers) -/
+theorem table_names_lower : ∀ row ∈ KeyFilter.table, lower row.name = row.name := by
+  intro row h
+  simpa using List.all_eq_true.mp table_names_lower_b row h
+
+theorem table_lookup_b : KeyFilter.table.all (fun row => lookup KeyFilter.table row.name == some row) = true := by
+  decide +kernel
+
+/-- names are unique: looking a row's name up finds that row -/
+theorem table_lookup : ∀ row ∈ KeyFilter.table, lookup KeyFilter.table row.name = some row := by
+  intro row h
+  simpa using List.all_eq_true.mp table_lookup_b row h
+
+theorem reference_covered_b :
+    commandClasses.all (fun p => (lookup KeyFilter.table (ascii p.1)).isSome) = true := by decide +kernel
+
+/-- every command of the reference has a row (a deleted row breaks this theorem) -/
+theorem reference_covered : ∀ p ∈ commandClasses, (lookup KeyFilter.table (ascii p.1)).isSome = true := by
+  intro p h
+  exact List.all_eq_true.mp reference_covered_b p h
+
+theorem table_size : KeyFilter.table.length = 65 := by decide +kernel
+
+/-- a name has a row iff the reference knows it as a key-addressed write command -/
+theorem lookup_none_iff_not_key_addressed (name : Bytes) :
+    lookup KeyFilter.table name = none ↔ classOfLower name = none := by
+  constructor
+  · intro hl
+    unfold classOfLower
+    cases hf : commandClasses.find? (fun p => ascii p.1 == name) with
+    | none => rfl
+    | some p =>
+      have hmem := List.mem_of_find?_eq_some hf
+      have hname : ascii p.1 = name := by simpa using List.find?_some hf
+      have := reference_covered p hmem
+      rw [hname, hl] at this
+      cases this
+  · intro hc
+    cases hl : lookup KeyFilter.table name with
+    | none => rfl
+    | some row =>
+      unfold lookup at hl
+      have hmem := List.mem_of_find?_eq_some hl
+      have hname : row.name = name := by simpa using List.find?_some hl
+      obtain ⟨cls, h1, _⟩ := table_rows_match_reference row hmem
+      rw [hname, hc] at h1
+      cases h1
+
+/-! ### 2. The property -/
+
+/-- **C13, predicate-parametric.** For every row of the table, every predicate `pass`, and every argument list of
+    valid arity for that command (i.e. one the reference can segment), `HandleFilterKeyWithCommand` with a key
+    filter configured answers exactly what the specification says: the passing keys with their companions and
+    all non-key arguments, in the original order — or "reject" iff no key passes. No panic, no hang. -/
+theorem C13_rewrite (pass : Bytes → Bool) :
+    ∀ row ∈ KeyFilter.table, ∃ cls, keyClass row.name = some cls ∧
+      ∀ args v, rewriteSpec pass cls args = some v →
+        (handleWith false KeyFilter.table true pass row.name args).map verdictOf = .ok v := by
+  intro row hrow
+  obtain ⟨cls, hcls, htriple⟩ := table_rows_match_reference row hrow
+  refine ⟨cls, by unfold keyClass; rw [table_names_lower row hrow]; exact hcls, ?_⟩
+  intro args v hv
+  unfold rewriteSpec at hv
+  cases hp : parse cls args with
+  | none => rw [hp] at hv; cases hv
+  | some segs =>
+    rw [hp] at hv
+    simp only [Option.map_some, Option.some.injEq] at hv
+    subst hv
+    have hne : (args.length == 0) = false := by
+      cases args with
+      | nil => cases cls <;> simp [parse] at hp
+      | cons a as => rfl
+    have hm := getMatchKeys_eq_spec pass cls row htriple args segs hp
+    unfold handleWith
+    simp only [Bool.not_true, Bool.false_eq_true, if_false, table_lookup row hrow, hne]
+    unfold getMatchKeys at hm
+    cases hg : getMatchKeysWith false pass row args with
+    | error e => rw [hg] at hm; cases hm
+    | ok r =>
+      rw [hg] at hm
+      obtain ⟨na, p⟩ := r
+      simp only [Except.map, verdictOfMatch, Except.ok.injEq] at hm ⊢
+      rw [← hm]
+      cases p <;> rfl
+
+theorem active_eq (c : Config) : c.active = (⟨c.whitelist, c.blacklist⟩ : FilterCfg).active := by
+  unfold Config.active FilterCfg.active
+  cases c.whitelist <;> cases c.blacklist <;> rfl
+
+/-- **C13 for configured prefix lists** (the statement of the property): for every whitelist/blacklist
+    configuration, every lower-case command name as delivered by `ParseArgs`, and every argument list on which
+    the specification makes a demand, `HandleFilterKeyWithCommand` returns the specified verdict:
+    unchanged if no key filter is configured or the command is not key-addressed, else the rewrite. -/
+theorem C13 (c : Config) (name : Bytes) (hname : lower name = name) (args : List Bytes) (v : Verdict)
+    (h : filterSpec ⟨c.whitelist, c.blacklist⟩ name args = some v) :
+    (handle c name args).map verdictOf = .ok v := by
+  unfold filterSpec at h
+  unfold handle
+  rw [active_eq]
+  cases ha : (⟨c.whitelist, c.blacklist⟩ : FilterCfg).active with
+  | false =>
+    simp only [ha, Bool.not_false, if_true, Option.some.injEq] at h
+    subst h
+    simp [handleWith, Except.map, verdictOf]
+  | true =>
+    simp only [ha, Bool.not_true, Bool.false_eq_true, if_false] at h
+    have hpass : (fun k => !filterKey c k) = keyPasses ⟨c.whitelist, c.blacklist⟩ := by
+      funext k; exact filterKey_spec c k
+    rw [hpass]
+    cases hl : lookup KeyFilter.table name with
+    | none =>
+      have : keyClass name = none := by
+        unfold keyClass; rw [hname]; exact (lookup_none_iff_not_key_addressed name).mp hl
+      simp only [this, Option.some.injEq] at h
+      subst h
+      simp [handleWith, hl, Except.map, verdictOf]
+    | some row =>
+      have hmem : row ∈ KeyFilter.table := List.mem_of_find?_eq_some hl
+      have hrn : row.name = name := by simpa using List.find?_some hl
+      obtain ⟨cls, hcls, hrw⟩ := C13_rewrite (keyPasses ⟨c.whitelist, c.blacklist⟩) row hmem
+      rw [hrn] at hcls hrw
+      simp only [hcls] at h
+      exact hrw args v h
+
+/-- **C13 at the call site**: `parseSourceCommand` lower-cases the command name (`ParseArgs`) and then calls
+    `HandleFilterKeyWithCommand`; for a command name in ANY letter case the pair answers the specified verdict. -/
+theorem C13_wire (c : Config) (cmd : Bytes) (hne : cmd ≠ []) (args : List Bytes) (v : Verdict)
+    (h : filterSpec ⟨c.whitelist, c.blacklist⟩ cmd args = some v) :
+    (handleWire c cmd args).map (·.map verdictOf) = some (.ok v) := by
+  unfold handleWire parseArgs
+  have hemp : (toLower cmd).isEmpty = false := by
+    cases cmd with
+    | nil => exact absurd rfl hne
+    | cons x xs => rfl
+  simp only [hemp, Bool.false_eq_true, if_false, Option.map_some, Option.some.injEq]
+  apply C13 c (toLower cmd) (lower_idem cmd) args v
+  have : keyClass (toLower cmd) = keyClass cmd := by
+    unfold keyClass; rw [toLower_eq_lower, lower_idem]
+  unfold filterSpec at h ⊢
+  rw [this]
+  exact h
+
+/-! ### 3. The clauses of the property, one by one -/
+
+/-- no key filter configured ⇒ forwarded unchanged, whatever the command -/
+theorem unchanged_without_filter (c : Config) (hw : c.whitelist = []) (hb : c.blacklist = []) (name : Bytes)
+    (args : List Bytes) : handle c name args = .ok (args, false) := by
+  simp [handle, handleWith, Config.active, hw, hb]
+
+/-- command not key-addressed (not in the reference = not in the table) ⇒ forwarded unchanged -/
+theorem unchanged_when_not_key_addressed (c : Config) (name : Bytes) (hn : classOfLower name = none)
+    (args : List Bytes) : handle c name args = .ok (args, false) := by
+  have := (lookup_none_iff_not_key_addressed name).mpr hn
+  unfold handle handleWith
+  simp only [this]
+  split <;> rfl
+
+/-- all keys pass ⇒ forwarded unchanged -/
+theorem unchanged_when_all_keys_pass (pass : Bytes → Bool) :
+    ∀ row ∈ KeyFilter.table, ∃ cls, keyClass row.name = some cls ∧
+      ∀ args segs, parse cls args = some segs → (∀ k ∈ keysOf segs, pass k = true) →
+        handleWith false KeyFilter.table true pass row.name args = .ok (args, false) := by
+  intro row hrow
+  obtain ⟨cls, hcls, hrw⟩ := C13_rewrite pass row hrow
+  refine ⟨cls, hcls, ?_⟩
+  intro args segs hp hall
+  have hv : rewriteSpec pass cls args = some (.forward args) := by
+    unfold rewriteSpec
+    rw [hp, Option.map_some, rewriteSegs_all_pass pass segs (parse_keys_ne_nil cls args segs hp) hall,
+      parse_flat cls args segs hp]
+  have := hrw args _ hv
+  cases hg : handleWith false KeyFilter.table true pass row.name args with
+  | error e => rw [hg] at this; cases this
+  | ok r =>
+    rw [hg] at this
+    obtain ⟨na, rej⟩ := r
+    simp only [Except.map, verdictOf, Except.ok.injEq] at this
+    cases rej
+    · simp only [Bool.false_eq_true, if_false, Verdict.forward.injEq] at this
+      rw [this]
+    · simp at this
+
+/-- rejected (dropped) exactly when none of the command's keys passes -/
+theorem dropped_iff_no_key_passes (pass : Bytes → Bool) :
+    ∀ row ∈ KeyFilter.table, ∃ cls, keyClass row.name = some cls ∧
+      ∀ args segs, parse cls args = some segs →
+        ((handleWith false KeyFilter.table true pass row.name args).map verdictOf = .ok .drop
+          ↔ ∀ k ∈ keysOf segs, pass k = false) := by
+  intro row hrow
+  obtain ⟨cls, hcls, hrw⟩ := C13_rewrite pass row hrow
+  refine ⟨cls, hcls, ?_⟩
+  intro args segs hp
+  have hv : rewriteSpec pass cls args = some (rewriteSegs pass segs) := by
+    unfold rewriteSpec; rw [hp]; rfl
+  rw [hrw args _ hv, ← rewriteSegs_drop_iff]
+  constructor
+  · intro h; injection h
+  · intro h; rw [h]
+
+/-- what is forwarded is a subsequence of the original arguments: order kept, nothing invented, and by
+    `rewriteSegs` every non-key argument is in it and a key is in it only with its companions and only if it passes -/
+theorem forwarded_is_subsequence (pass : Bytes → Bool) :
+    ∀ row ∈ KeyFilter.table, ∃ cls, keyClass row.name = some cls ∧
+      ∀ args out, validArity cls args = true →
+        (handleWith false KeyFilter.table true pass row.name args).map verdictOf = .ok (.forward out) →
+        out.Sublist args := by
+  intro row hrow
+  obtain ⟨cls, hcls, hrw⟩ := C13_rewrite pass row hrow
+  refine ⟨cls, hcls, ?_⟩
+  intro args out hvalid hout
+  unfold validArity at hvalid
+  cases hp : parse cls args with
+  | none => rw [hp] at hvalid; cases hvalid
+  | some segs =>
+    have hv : rewriteSpec pass cls args = some (rewriteSegs pass segs) := by
+      unfold rewriteSpec; rw [hp]; rfl
+    rw [hrw args _ hv] at hout
+    have : rewriteSegs pass segs = .forward out := by injection hout
+    have hs := rewriteSegs_sublist pass segs out this
+    rwa [parse_flat cls args segs hp] at hs
+
+/-- `FilterKey` implements the prefix-list semantics of the specification -/
+theorem filterKey_is_keyPasses (c : Config) (key : Bytes) :
+    (!filterKey c key) = keyPasses ⟨c.whitelist, c.blacklist⟩ key := filterKey_spec c key
+
+/-! non-vacuity: concrete inhabitants of the hypotheses, evaluated on the real table -/
+
+example : (handle ⟨[ascii "p:"], []⟩ (ascii "mset") [ascii "p:a", ascii "1", ascii "q:b", ascii "2", ascii "p:c", ascii "3"]).map verdictOf
+    = .ok (.forward [ascii "p:a", ascii "1", ascii "p:c", ascii "3"]) := by decide +kernel
+example : filterSpec ⟨[ascii "p:"], []⟩ (ascii "mset") [ascii "p:a", ascii "1", ascii "q:b", ascii "2", ascii "p:c", ascii "3"]
+    = some (.forward [ascii "p:a", ascii "1", ascii "p:c", ascii "3"]) := by decide +kernel
+example : (handleWire ⟨[], [ascii "q:"]⟩ (ascii "BitOp") [ascii "AND", ascii "q:d", ascii "s1", ascii "q:s2"]).map (·.map verdictOf)
+    = some (.ok (.forward [ascii "AND", ascii "s1"])) := by decide +kernel
+example : (handle ⟨[ascii "p:"], []⟩ (ascii "blpop") [ascii "q:a", ascii "q:b", ascii "0"]).map verdictOf = .ok .drop := by
+  decide +kernel
+example : ∃ row ∈ KeyFilter.table, row.name = ascii "unlink" ∧ keyClass row.name = some .all := by
+  refine ⟨⟨ascii "unlink", 1, 0, 1⟩, ?_, rfl, ?_⟩ <;> decide +kernel
+
+/-! ### 4. The rows as pinned (deviation D15), kept as kernel-checked witnesses
+
+`getMatchKeysPinned` is `getMatchKeys` before the patch; `pinnedRow` spells the pinned row. Each theorem shows the
+verdict of the pinned code next to the specification's, under the key filter "whitelist prefix `p:`". The same
+inputs are replayed on the real code by corpus/C13/d15.case. -/
+
+/-- for rows with `firstkey = 1` (all but `bitop`) the patch does not change `getMatchKeys` at all -/
+theorem pinned_eq_repaired_when_first_is_1 (pass : Bytes → Bool) (row : Row) (h : row.first = 1) (args : List Bytes) :
+    getMatchKeysPinned pass row args = getMatchKeys pass row args := by
+  unfold getMatchKeysPinned getMatchKeys getMatchKeysWith
+  simp [h]
+
+/-- hence the table repair alone (rows' `lastkey`) already makes the PINNED `getMatchKeys` code right for every
+    command but `bitop`; only `bitop` (firstkey 2) needs the code change -/
+theorem C13_partial_pinned_code (pass : Bytes → Bool) :
+    ∀ row ∈ KeyFilter.table, row.first = 1 → ∃ cls, keyClass row.name = some cls ∧
+      ∀ args v, rewriteSpec pass cls args = some v →
+        (handleWith true KeyFilter.table true pass row.name args).map verdictOf = .ok v := by
+  intro row hrow hfirst
+  obtain ⟨cls, hcls, hrw⟩ := C13_rewrite pass row hrow
+  refine ⟨cls, hcls, ?_⟩
+  intro args v hv
+  have := hrw args v hv
+  unfold handleWith at this ⊢
+  simp only [table_lookup row hrow] at this ⊢
+  have e := pinned_eq_repaired_when_first_is_1 pass row hfirst args
+  unfold getMatchKeysPinned getMatchKeys at e
+  rw [e]
+  exact this
+
+/-- single-key UNLINK of a passing key: always dropped -/
+theorem counterexample_unlink :
+    (getMatchKeysPinned passP (pinnedRow "unlink" 1 (-1) 1) [ascii "p:a"]).map verdictOfMatch = .ok .drop ∧
+    rewriteSpec passP .all [ascii "p:a"] = some (.forward [ascii "p:a"]) := by decide +kernel
+
+/-- the last key is never filtered -/
+theorem counterexample_unlink_last_key :
+    (getMatchKeysPinned passP (pinnedRow "unlink" 1 (-1) 1) [ascii "p:a", ascii "q:b"]).map verdictOfMatch
+      = .ok (.forward [ascii "p:a", ascii "q:b"]) ∧
+    rewriteSpec passP .all [ascii "p:a", ascii "q:b"] = some (.forward [ascii "p:a"]) := by decide +kernel
+
+theorem counterexample_sinterstore :
+    (getMatchKeysPinned passP (pinnedRow "sinterstore" 1 (-1) 1) [ascii "p:dst", ascii "q:s1", ascii "q:s2"]).map verdictOfMatch
+      = .ok (.forward [ascii "p:dst", ascii "q:s2"]) ∧
+    rewriteSpec passP .all [ascii "p:dst", ascii "q:s1", ascii "q:s2"] = some (.forward [ascii "p:dst"]) := by decide +kernel
+
+theorem counterexample_sunionstore :
+    (getMatchKeysPinned passP (pinnedRow "sunionstore" 1 (-1) 1) [ascii "p:d", ascii "q:s"]).map verdictOfMatch
+      = .ok (.forward [ascii "p:d", ascii "q:s"]) ∧
+    rewriteSpec passP .all [ascii "p:d", ascii "q:s"] = some (.forward [ascii "p:d"]) := by decide +kernel
+
+theorem counterexample_sdiffstore :
+    (getMatchKeysPinned passP (pinnedRow "sdiffstore" 1 (-1) 1) [ascii "q:d", ascii "p:s", ascii "q:t"]).map verdictOfMatch
+      = .ok (.forward [ascii "p:s", ascii "q:t"]) ∧
+    rewriteSpec passP .all [ascii "q:d", ascii "p:s", ascii "q:t"] = some (.forward [ascii "p:s"]) := by decide +kernel
+
+/-- the only passing key is the last one: the command is dropped although it should be forwarded -/
+theorem counterexample_pfmerge :
+    (getMatchKeysPinned passP (pinnedRow "pfmerge" 1 (-1) 1) [ascii "q:d", ascii "p:s"]).map verdictOfMatch = .ok .drop ∧
+    rewriteSpec passP .all [ascii "q:d", ascii "p:s"] = some (.forward [ascii "p:s"]) := by decide +kernel
+
+/-- BITOP loses its operation argument (and its last key is never filtered) -/
+theorem counterexample_bitop :
+    (getMatchKeysPinned passP (pinnedRow "bitop" 2 (-1) 1) [ascii "AND", ascii "p:d", ascii "p:s"]).map verdictOfMatch
+      = .ok (.forward [ascii "p:d", ascii "p:s"]) ∧
+    rewriteSpec passP .afterSub [ascii "AND", ascii "p:d", ascii "p:s"]
+      = some (.forward [ascii "AND", ascii "p:d", ascii "p:s"]) := by decide +kernel
+
+/-- `BRPOP key timeout` with a passing key: always dropped -/
+theorem counterexample_brpop :
+    (getMatchKeysPinned passP (pinnedRow "brpop" 1 (-2) 1) [ascii "p:l", ascii "0"]).map verdictOfMatch = .ok .drop ∧
+    rewriteSpec passP .allButLast [ascii "p:l", ascii "0"] = some (.forward [ascii "p:l", ascii "0"]) := by decide +kernel
+
+theorem counterexample_blpop :
+    (getMatchKeysPinned passP (pinnedRow "blpop" 1 (-2) 1) [ascii "p:l1", ascii "q:l2", ascii "0"]).map verdictOfMatch
+      = .ok (.forward [ascii "p:l1", ascii "q:l2", ascii "0"]) ∧
+    rewriteSpec passP .allButLast [ascii "p:l1", ascii "q:l2", ascii "0"] = some (.forward [ascii "p:l1", ascii "0"]) := by
+  decide +kernel
+
 end RSVerif.Properties.C13
